@@ -736,8 +736,9 @@ class CategoricalROISubsetState(SubsetState):
     @contract(data='isinstance(Data)', view='array_view')
     def to_mask(self, data, view=None):
         x = data[self.att, view]
-        result = self.roi.contains(x, None)
-        assert x.shape == result.shape
+        # NOTE: a view that selects a single element gives a plain boolean
+        result = np.asarray(self.roi.contains(x, None))
+        assert np.shape(x) == result.shape
         return result
 
     def copy(self):
